@@ -427,3 +427,125 @@ placement_order = FunctionContract(
             ("match = block_matches.pop(-1)", "match = block_matches[-1]")],
 )
 CONTRACTS.append(placement_order)
+
+
+# ------------------------------------------------------------------ do_mapping: a particle without reference atom takes its attributes from its atoms
+VSeq = TSeq(ValT)
+
+
+def setup_noref(cx):
+    from pyvc.builtins import list_append
+    d = setup_ref_attrs(cx)
+    ATTRS = cx.val('ATTRS', TMap(ANameT, VSeq))             # attrs: attribute -> the values of the constituent atoms that have it, in order
+    cx.spec_env['ATTRS'] = ATTRS
+    differ = cx.uf('all_equal', [VSeq], TBool)              # are_all_equal(vals) (its contract: proved under C17)
+    cx.spec_env['are_all_equal'] = Builtin(lambda e, v: wrap(TBool, differ(to_z3(v, VSeq))), 'are_all_equal')
+    WARNED = cx.heap('WARNED', cx.box('WARNED', TSeq(TStr)))
+    cx.spec_env['LOGGER'] = Obj('LOGGER', warning=Builtin(lambda e, *a, type=None, **k: list_append(e, WARNED, type), 'LOGGER.warning'))
+    cx.spec_env['format_atom_string'] = Builtin(lambda e, n, **k: 'atom', 'format_atom_string')
+    d['attrs'] = ATTRS
+    return d
+
+
+SPEC_NR = {
+    'N0': "lambda: old(NODE)",
+    'first': "lambda a: ATTRS[a][0]",
+    'taken': "lambda a: a in ATTRS and (a in attribute_keep or not (a in N0()))",
+    'stashed_as': "lambda k: exists(lambda a: a in ATTRS and a in attribute_stash and k == old_(a), AName)",
+}
+NR_INV = [
+    "forall(lambda a: implies(a in ATTRS and posof(ATTRS, a) < {I} and taken(a), a in NODE and NODE[a] == first(a)), AName)",
+    "forall(lambda a: implies(a in ATTRS and (posof(ATTRS, a) >= {I} or not taken(a)), (a in NODE) == (a in N0()) and implies(a in NODE, NODE[a] == N0()[a])), AName)",
+    "forall(lambda a: implies(a in ATTRS and posof(ATTRS, a) < {I} and a in attribute_stash, old_(a) in NODE and NODE[old_(a)] == first(a)), AName)",
+    "forall(lambda k: implies(not (k in ATTRS) and not exists(lambda a: a in ATTRS and posof(ATTRS, a) < {I} and a in attribute_stash and k == old_(a), AName), "
+    "   (k in NODE) == (k in N0()) and implies(k in NODE, NODE[k] == N0()[k])), AName)",
+    # the attributes whose values differ between the atoms are collected (each once)
+    "forall(lambda q: implies(0 <= q and q < len(attrs_not_sane), attrs_not_sane[q] in ATTRS and posof(ATTRS, attrs_not_sane[q]) < {I} and "
+    "   not all_equal(ATTRS[attrs_not_sane[q]])))",
+    "forall(lambda a: implies(a in ATTRS and posof(ATTRS, a) < {I} and not all_equal(ATTRS[a]), len(attrs_not_sane) > 0), AName)",
+]
+noref_attrs = FunctionContract(
+    F, 'do_mapping', 'C01', short='do_mapping[attributes of a particle without reference atom]', setup=setup_noref, spec_defs=SPEC_NR,
+    spec_env=dict(AName=ANameT, Val=ValT),
+    region=dict(within=["for out_idx in out_to_mol:", "else of if out_idx in all_references:"], start="attrs_not_sane = []"),
+    locals=dict(attrs_not_sane=TSeq(ANameT)),
+    requires=[
+        "forall(lambda a, b: implies(a in ATTRS and b in ATTRS, old_(a) != b), AName, AName)",
+        # every attribute was collected from at least one atom
+        "forall(lambda a: implies(a in ATTRS, len(ATTRS[a]) > 0), AName)",
+        "len(old(WARNED)) == 0",
+    ],
+    ensures=[x.format(I='len(ATTRS)') for x in NR_INV[:4]] + [
+        # one inconsistent-data warning exactly when the constituent atoms disagree on some attribute
+        "(len(WARNED) == 1) == exists(lambda a: a in ATTRS and not all_equal(ATTRS[a]), AName)",
+        "len(WARNED) <= 1 and implies(len(WARNED) == 1, WARNED[0] == 'inconsistent-data')",
+    ],
+    modifies=['NODE', 'WARNED'],
+    loops={'L1': LoopSpec(inv=[x.format(I='_i') for x in NR_INV] + ["len(WARNED) == 0"], modifies=['NODE', 'attrs_not_sane'],
+                          ghost_pre="prove(len(vals) > 0, 'collected-list-is-not-empty')")},
+    canary=[("graph_out.nodes[out_idx][attr] = vals[0]", "graph_out.nodes[out_idx][attr] = vals[-1]"),
+            ("if not are_all_equal(vals):", "if are_all_equal(vals):"),
+            ("if attrs_not_sane:", "if not attrs_not_sane:")],
+)
+CONTRACTS.append(noref_attrs)
+
+
+# ------------------------------------------------------------------ do_mapping: collecting the attribute values of a particle's atoms
+CAtom = TKey('CAtom')
+SrcMap = TMap(ANameT, TSeq(TInt))
+ValMap = TMap(ANameT, VSeq)
+
+
+def setup_collect_attrs(cx):
+    MOLS = cx.val('MOLS', TSeq(CAtom))                      # mol_idxs: the atoms that make up the particle, in order
+    cx.spec_env['MOLS'] = MOLS
+    na = cx.uf('na', [CAtom], AMap)                         # attrs_from_node(molecule.nodes[atom], keep + must + stash)
+    a_ = z3.Const('ca', CAtom.sort())
+    cx.assume(z3.ForAll([a_], AMap.inv(na(a_))))
+    mnodes = Obj('NodeView', __getitem__=Builtin(lambda e, k: SV(CAtom, to_z3(k, CAtom)), 'molecule.nodes[]'))
+    cx.spec_env['attrs_from_node'] = Builtin(lambda e, node, attrs: SV(AMap, na(to_z3(node, CAtom))), 'attrs_from_node')
+    cat = Obj('attrlist')
+    cat.attrs['__add__'] = Builtin(lambda e, o: cat, '+')
+    return dict(molecule=Obj('Molecule', nodes=mnodes), mol_idxs=MOLS, attribute_keep=cat, attribute_must=cat, attribute_stash=cat)
+
+
+def _coll_inv(I):
+    return [x.format(I=I) for x in (
+        "forall(lambda a: (a in attrs) == (a in g_src), AName)",
+        "forall(lambda a: implies(a in g_src, len(g_src[a]) >= 1 and len(attrs[a]) == len(g_src[a])), AName)",
+        # the p-th value collected for an attribute is the value of one of the atoms looked at so far that has it
+        "forall(lambda a, p: implies(a in g_src and 0 <= p and p < len(g_src[a]), 0 <= g_src[a][p] and g_src[a][p] < {I} and "
+        "   a in na(MOLS[g_src[a][p]]) and attrs[a][p] == na(MOLS[g_src[a][p]])[a]), AName, TInt)",
+        "forall(lambda a, p, q: implies(a in g_src and 0 <= p and p < q and q < len(g_src[a]), g_src[a][p] < g_src[a][q]), AName, TInt, TInt)",
+        # and the first one is that of the first atom that has it
+        "forall(lambda a, k: implies(0 <= k and k < {I} and a in na(MOLS[k]), a in g_src and g_src[a][0] <= k), AName, TInt)")]
+
+
+collect_attrs = FunctionContract(
+    F, 'do_mapping', 'C01', short='do_mapping[collecting the attributes of the atoms of a particle]', setup=setup_collect_attrs,
+    spec_env=dict(AName=ANameT, Val=ValT),
+    region=dict(within=["for out_idx in out_to_mol:", "else of if out_idx in all_references:"], start="attrs = defaultdict(list)",
+                end="attrs_not_sane = []"),
+    locals=dict(attrs=ValMap, g_src=SrcMap, g_A=ValMap, g_S=SrcMap),
+    ghost_at={'entry': "g_src = {}"},
+    # every attribute that some atom of the particle has is collected, with at least one value; the values are those of the atoms
+    # that have it, in the atoms' order - so the first value (the one the particle takes) is that of the first such atom
+    ensures=_coll_inv('len(MOLS)'),
+    loops={
+        'L1': LoopSpec(inv=_coll_inv('_i'), modifies=['attrs', 'g_src']),
+        'L1.1': LoopSpec(inv=[
+            # the attributes of this atom handled so far got one more value - this atom's -, everything else is as before this atom
+            "forall(lambda a: implies(a in new_attrs and posof(new_attrs, a) < _i, a in attrs and a in g_src and "
+            "   len(attrs[a]) == (len(g_A[a]) if a in g_A else 0) + 1 and len(g_src[a]) == len(attrs[a]) and "
+            "   attrs[a][len(attrs[a]) - 1] == new_attrs[a] and g_src[a][len(g_src[a]) - 1] == _iL1 and "
+            "   forall(lambda p: implies(0 <= p and p < len(attrs[a]) - 1, attrs[a][p] == g_A[a][p] and g_src[a][p] == g_S[a][p]))), AName)",
+            "forall(lambda a: implies(not (a in new_attrs and posof(new_attrs, a) < _i), (a in attrs) == (a in g_A) and (a in g_src) == (a in g_S) and "
+            "   implies(a in g_A, len(attrs[a]) == len(g_A[a]) and len(g_src[a]) == len(g_S[a]) and "
+            "   forall(lambda p: implies(0 <= p and p < len(g_A[a]), attrs[a][p] == g_A[a][p] and g_src[a][p] == g_S[a][p])))), AName)"],
+            modifies=['attrs', 'g_src'], ghost_init="g_A = dict(attrs)\ng_S = dict(g_src)",
+            ghost_end="if attr in g_src:\n    g_src[attr] = g_src[attr] + [_iL1]\nelse:\n    g_src[attr] = [_iL1]"),
+    },
+    canary=[("attrs[attr].append(val)", "attrs[attr] = [val]"),
+            ("for mol_idx in mol_idxs:", "for mol_idx in mol_idxs[1:]:")],
+)
+CONTRACTS.append(collect_attrs)
